@@ -50,8 +50,10 @@ def fs17Case (id : String) (payload : List Sexp) : List String :=
     | _ => []
   match parseCmd (fsStr p "cmd"), mapIdx parseOut (sub "outs"), (sub "listing").mapM parseFileInfo, (sub "init").mapM parseInit with
   | some cmd, some outs, some listing, some init =>
+    -- `tmpfail`: the temp name exceeds NAME_MAX, os.CreateTemp fails: logx.Fatalf before anything is written (exit 1)
+    let tmpfail := p.hasFlag "tmpfail"
     let c : Config := { cmd := cmd, cwdPrefix := fsStr p "cwd", pkgPrefix := fsStr p "pkg", dirPrefix := fsStr p "dirp",
-                        outs := outs, cleanActive := p.hasFlag "clean", genfile := fsStr p "genfile", listing := listing }
+                        outs := if tmpfail then [] else outs, cleanActive := p.hasFlag "clean", genfile := fsStr p "genfile", listing := listing }
     let txns := c.txns
     let rms := c.clean
     let ops := c.ops
@@ -80,7 +82,7 @@ def fs17Case (id : String) (payload : List Sexp) : List String :=
       [ ("ops", dash (sortStrs (tg.map (fun t => "txn:" ++ t)) ++ rms.map (fun r => "rm:" ++ r))),
         ("created", dash (sortStrs tg)),
         ("removed", dash (sortStrs rms)),
-        ("exit", if c.cleanNames.2 then "1" else "0"),
+        ("exit", if c.cleanNames.2 || tmpfail then "1" else "0"),
         ("confined", fsyn confined), ("cleanonly", fsyn cleanonly), ("atomic", fsyn atomic), ("frame", fsyn frame),
         ("hardlink", fsyn hardlink), ("notemp", fsyn notemp), ("reader", "yes") ]
     let spec : List (String × String) :=
